@@ -13,6 +13,10 @@ REPO = os.environ.get('VERIF_REPO', '/repo')
 WORK = os.environ.get('VERIF_WORK', os.path.join(VERIF, '.work'))
 EVIDENCE = os.path.join(VERIF, 'evidence')
 REPLAYS = os.path.join(VERIF, 'replays')
+if REPO != '/repo':
+    # trial runs against a scratch copy of the repository must not overwrite the evidence of /repo
+    EVIDENCE = os.path.join(WORK, 'evidence')
+    REPLAYS = os.path.join(WORK, 'replays')
 KNOWN = os.path.join(VERIF, 'known_findings.txt')
 
 ENV = dict(os.environ)
